@@ -1147,6 +1147,11 @@ func (ev *Ev) lvalue(e ast.Expr) *LValue {
 		}
 		ptrV := baseV
 		for _, i := range idx {
+			if pt, ok := curT.Underlying().(*types.Pointer); ok && cur == nil && ptrV.K == vAddr && ptrV.LV != nil {
+				// (&x).f where x is an lvalue of this activation: the location is x's own field
+				cur = ptrV.LV
+				curT = pt.Elem()
+			}
 			if pt, ok := curT.Underlying().(*types.Pointer); ok {
 				// deref: location is heap struct field
 				var ref string
@@ -1214,7 +1219,7 @@ func (ev *Ev) lvalue(e ast.Expr) *LValue {
 		case *types.Array:
 			idx := ev.expr(x.Index)
 			if !ev.spec {
-				ev.boundsCheck(idx, base.Comp["#len"].T, x)
+				ev.boundsCheck(idx, fmt.Sprint(ut.Len()), x) // the length of an array is part of its type
 			}
 			return &LValue{K: lvElem, Ref: base.Comp["#arr"].T, Idx: idx.T, Typ: ut.Elem(), ElemKey: typeKey(ut.Elem())}
 		case *types.Map:
@@ -1666,7 +1671,7 @@ func (ev *Ev) index(x *ast.IndexExpr) Value {
 		case *types.Array:
 			idx := ev.expr(x.Index)
 			if !ev.spec {
-				ev.boundsCheck(idx, base.Comp["#len"].T, x)
+				ev.boundsCheck(idx, fmt.Sprint(ut.Len()), x) // the length of an array is part of its type
 			}
 			lv = &LValue{K: lvElem, Ref: base.Comp["#arr"].T, Idx: idx.T, Typ: ut.Elem(), ElemKey: typeKey(ut.Elem())}
 		case *types.Map:
